@@ -138,8 +138,30 @@ func genTypes(t *rapid.T) DetCase {
 	return DetCase{Src: h.Str(awkgen.DefaultNaming(p).Render(p)), Kind: "types-model"}
 }
 
+// programs that call native (Go) functions next to user-defined ones: both kinds are numbered from 0
+func genNativeCalls(t *rapid.T) DetCase {
+	var sb strings.Builder
+	nu := rapid.IntRange(0, 4).Draw(t, "nuser")
+	for i := 0; i < nu; i++ {
+		fmt.Fprintf(&sb, "function u%d(a) { return a + %d }\n", i, i)
+	}
+	calls := []string{"nat_add(1, 2)", "nat_len(\"abc\")", "zz_last(\"a\", \"b\")", "nat_add(nat_len(\"x\"), 1)"}
+	for i := 0; i < nu; i++ {
+		calls = append(calls, fmt.Sprintf("u%d(%d)", i, i))
+	}
+	n := rapid.IntRange(1, 5).Draw(t, "ncalls")
+	sb.WriteString("BEGIN {")
+	for i := 0; i < n; i++ {
+		fmt.Fprintf(&sb, " print %s;", rapid.SampledFrom(calls).Draw(t, "call"))
+	}
+	sb.WriteString(" }\n")
+	return DetCase{Src: h.Str(sb.String()), Kind: "native-calls"}
+}
+
 func genDet(t *rapid.T) DetCase {
-	switch k := rapid.IntRange(0, 9).Draw(t, "kind"); {
+	switch k := rapid.IntRange(0, 10).Draw(t, "kind"); {
+	case k == 10:
+		return genNativeCalls(t)
 	case k < 4:
 		return genMultiError(t)
 	case k < 6:
@@ -180,7 +202,7 @@ const parsesPerCase = 30
 
 func runDet(x *h.Ctx, c DetCase) string {
 	src := string(c.Src)
-	withNative := strings.Contains(src, "nat_") || len(src)%3 == 0
+	withNative := strings.Contains(src, "nat_") || strings.Contains(src, "zz_last") || len(src)%3 == 0
 	first := parseOnce(src, withNative)
 	for i := 1; i < parsesPerCase; i++ {
 		again := parseOnce(src, withNative)
@@ -194,7 +216,7 @@ func runDet(x *h.Ctx, c DetCase) string {
 	} else {
 		x.Class("accepted")
 	}
-	if c.Kind == "multi-error" && c.NErrs >= 2 || c.Kind == "many-functions" {
+	if c.Kind == "multi-error" && c.NErrs >= 2 || c.Kind == "many-functions" || c.Kind == "native-calls" {
 		x.Nontrivial("")
 	}
 	return ""
